@@ -17,7 +17,7 @@ RULE = ("every registry class with count/sum accumulators × configuration: inje
         "load_state_dict, apply 1–3 further grid-valued batches, compare the accumulator with injected + (statistics the same batches "
         "produce on a fresh instance), exactly; non-trivial = distinct (class, state, injected magnitude, batch)")
 MODELLED = ["accumulators are modelled as non-negative integers (weights in the injected runs are 1)"]
-ASSUMPTIONS = ["weights/sample_weight omitted in the injected runs so that the statistics are integers"]
+ASSUMPTIONS = ["weights/sample_weight omitted in the injected runs so that the statistics are integers; a case whose added statistic is not integer-valued (a sum of sample values rather than a count/weight) is skipped and counted as skipped:non-integer-statistic"]
 TRUSTED_EXTRA = ["harness/translators/dtypes.py (reads dtypes off live objects) producing lean/TE/Gen/Dtypes.lean"]
 
 MAGS = [2 ** 24 - 2, 2 ** 24 - 1, 2 ** 24, 2 ** 24 + 2, 2 ** 31, 2 ** 52]
@@ -64,6 +64,11 @@ def one(rep: Report, rng: Rng, spec: Spec, cfg0: dict, st: str, mag: int):
     delta = getattr(fresh, st).to(torch.float64) - f0
     got = getattr(m, st).to(torch.float64)
     want = inj.to(torch.float64) + delta
+    if not torch.equal(delta, delta.round()):
+        # a sum of non-integer sample VALUES (Mean.weighted_sum, Sum, MSE's squared error …) is not a count:
+        # injected + delta need not be representable at all; rounding of value sums is C07's subject, not C19's
+        rep.count("skipped:non-integer-statistic")
+        return
     rep.count(f"dtype:{cur.dtype}"); rep.count(f"mag:2^{mag.bit_length()-1}")
     nontriv = bool((delta != 0).any())
     rep.case(nontrivial_key=(spec.name, st, mag, repr(delta.tolist())) if nontriv else None,
